@@ -351,7 +351,8 @@ class Check(common.Check):
         if res is None:
             self.notes.append('opcode probe failed: ' + err[-300:])
             return []
-        out = self.class_table_static() + self.pyop_static() + self.rate_sweep_static() + self.mix_static()
+        out = (self.class_table_static() + self.pyop_static() + self.rate_sweep_static() + self.mix_static()
+               + self.method_static())
         self._opcode_probe = len(res)
         for arity, name, got in res:
             want = (opcodes_ref.UNARY if arity == 'unary' else opcodes_ref.BINARY).index(name)
@@ -374,6 +375,26 @@ class Check(common.Check):
             if status == 'ok' and want is not None and rates and any(r != want for r in rates):
                 out.append({'what': f'{name}.{ctor}(...) is emitted with rate {rates}, created at rate {want}',
                             'signature': f'c01:created-rate:{name}', 'case': {'class': name, 'ctor': ctor}})
+        return out
+
+    def method_static(self):
+        """each operator carries the server opcode of that operator, also when requested through the
+        method of that name on a unit generator or the function of that name in sc3.base.builtins"""
+        res, err = common.run_impl('c01', 'method_probe', {'mode': 'nrt'}, timeout=600)
+        if res is None:
+            self.notes.append('operator method probe failed: ' + err[-300:])
+            return []
+        self._method_probe = len(res)
+        out = []
+        for arity, name, cand, entry, st, ops, idx in res:
+            cls = _U if arity == 'unary' else _B
+            form = f'x.{cand}(…)' if entry == 'method' else f'builtins.{cand}(x…)'
+            if st == 'EXC':
+                out.append({'what': f'{form} on a unit generator is refused ({ops}); it names the server operator {name!r} (index {idx})',
+                            'signature': f'c01:operator-entry-refused:{cand}:{entry}', 'case': {'operator': name, 'entry': entry, 'name': cand}})
+            elif ops != [[cls, idx]]:
+                out.append({'what': f'{form} on a unit generator is emitted as {ops}; it names the server operator {name!r} = [{cls}, {idx}]',
+                            'signature': f'c01:operator-entry:{cand}:{entry}', 'case': {'operator': name, 'entry': entry, 'name': cand}})
         return out
 
     def mix_static(self):
@@ -492,7 +513,7 @@ class Check(common.Check):
         h['validator_skipped_polynomials_too_large'] = sum(1 for o in outs if str(o.get('validator_real', '')).startswith('SKIP'))
         # sizes of the static probes of this run (operators, class table, operator protocol forms, class sweeps ...)
         for k in ('_opcode_probe', '_class_probe', '_pyop_probe', '_rate_sweep', '_desc_probe', '_class_sweep',
-                  '_srfirst_probe', '_invalid_sweep', '_mix_probe'):
+                  '_srfirst_probe', '_invalid_sweep', '_mix_probe', '_method_probe'):
             if hasattr(self, k):
                 h['static' + k] = getattr(self, k)
         h['demand_blocks'] = sum(1 for c in cases if any(e.get('cls') == 'Duty' for e in c['events']))
